@@ -141,6 +141,11 @@ func intrBytesCompare(vc *VC, fr *Frame, st *State, args []Val, c *ssa.CallCommo
 	lt := or(and(inBoth, sx("bvult", at(a, d), at(b, d))), and(not(inBoth), sx("bvslt", la, lb)))
 	gt := or(and(inBoth, sx("bvugt", at(a, d), at(b, d))), and(not(inBoth), sx("bvsgt", la, lb)))
 	vc.sc.assert(eq(r, ite(lt, bvInt(-1, 64), ite(gt, i64(1), i64(0)))))
+	// the result is a function of the two byte sequences: two evaluations over unchanged contents agree
+	// by congruence (no quantifier reasoning needed)
+	cs := arraySort(sortIdx, bvSort(8))
+	vc.sc.declareFun("bytes.cmpf", []string{cs, sortIdx, sortIdx, cs, sortIdx, sortIdx}, sortIdx)
+	vc.sc.assert(eq(r, sx("bytes.cmpf", sel(h, a.Sl[0]), a.Sl[1], la, sel(h, b.Sl[0]), b.Sl[1], lb)))
 	return intVal(r)
 }
 
